@@ -103,50 +103,68 @@ def _gen_and_run(job):
 
 
 def stage_traces(out: core.Outcome, *, profile: str, n: int, clauses, seed_offset=0, transform=None):
-    """code -> spec.  Random programs (seeded) executed on the implementation, traces validated by TLC."""
-    items = []
-    skipped = 0
-    base = out.seed * 1_000_003 + seed_offset
-    if n >= 400 and transform is None:
-        # generation + execution spread over worker processes (each program runs in a fresh global state anyway)
-        import multiprocessing
+    """code -> spec.  Random programs (seeded) executed on the implementation, traces validated by TLC.
+    Large stages run in batches (generate / execute / validate / discard) so that memory stays bounded."""
+    import hashlib
 
-        jobs = [(profile, base + k, min(250, n - k)) for k in range(0, n, 250)]
-        with multiprocessing.get_context("fork").Pool(min(16, len(jobs))) as pool:
-            for part in pool.imap(_gen_and_run, jobs):
-                for prog, tr, gs in part:
-                    if tr is None:
-                        skipped += 1
-                    else:
-                        items.append({"prog": prog, "trace": tr, "meta": {"profile": profile, "gen_seed": gs}})
-    else:
-        for i in range(n):
-            prog = gen_program(base + i, PROFILES[profile])
-            if transform:
-                prog = transform(prog)
-            tr = run_program(prog)
-            if tr is None:
-                skipped += 1
-                continue
-            items.append({"prog": prog, "trace": tr, "meta": {"profile": profile, "gen_seed": base + i}})
+    base = out.seed * 1_000_003 + seed_offset
+    BATCH = 2500
+    counts = collections.Counter()
     kinds = collections.Counter()
-    for it in items:
-        for st_ in it["prog"]:
-            kinds[st_["k"] if st_["k"] != "op" else "op:" + st_["f"]] += 1
-            if st_.get("fail"):
-                kinds["failing statements"] += 1
-    counts, stats = core.validate_traces(out, TRACE_SPEC, TRACE_CFG, clauses, items)
+    stats = {"distinct": 0, "generated": 0}
+    seen = set()
+    skipped = n_items = n_statements = 0
+    sample = None
+    for b0 in range(0, n, BATCH):
+        bn = min(BATCH, n - b0)
+        items = []
+        if n >= 400 and transform is None:
+            # generation + execution spread over worker processes (each program runs in a fresh global state anyway)
+            import multiprocessing
+
+            jobs = [(profile, base + b0 + k, min(250, bn - k)) for k in range(0, bn, 250)]
+            with multiprocessing.get_context("fork").Pool(min(16, len(jobs))) as pool:
+                for part in pool.imap(_gen_and_run, jobs):
+                    for prog, tr, gs in part:
+                        if tr is None:
+                            skipped += 1
+                        else:
+                            items.append({"prog": prog, "trace": tr, "meta": {"profile": profile, "gen_seed": gs}})
+        else:
+            for i in range(b0, b0 + bn):
+                prog = gen_program(base + i, PROFILES[profile])
+                if transform:
+                    prog = transform(prog)
+                tr = run_program(prog)
+                if tr is None:
+                    skipped += 1
+                    continue
+                items.append({"prog": prog, "trace": tr, "meta": {"profile": profile, "gen_seed": base + i}})
+        for it in items:
+            for st_ in it["prog"]:
+                kinds[st_["k"] if st_["k"] != "op" else "op:" + st_["f"]] += 1
+                if st_.get("fail"):
+                    kinds["failing statements"] += 1
+            seen.add(hashlib.sha1(json.dumps(it["prog"], sort_keys=True).encode()).digest())
+            n_statements += len(it["trace"])
+        c_, s_ = core.validate_traces(out, TRACE_SPEC, TRACE_CFG, clauses, items)
+        counts.update(c_)
+        stats["distinct"] += s_["distinct"]
+        stats["generated"] += s_["generated"]
+        n_items += len(items)
+        if sample is None and items:
+            sample = items[0]["prog"]
+        del items
     cov = out.coverage
-    cov["traces_validated_against_impl"] = cov.get("traces_validated_against_impl", 0) + len(items)
+    cov["traces_validated_against_impl"] = cov.get("traces_validated_against_impl", 0) + n_items
     cov["states"] = cov.get("states", 0) + stats["distinct"]
     cov["transitions"] = cov.get("transitions", 0) + stats["generated"]
-    distinct = len({json.dumps(it["prog"], sort_keys=True) for it in items})
     cov.setdefault("trace_stages", []).append(
-        {"profile": profile, "programs": len(items), "distinct_programs": distinct, "out_of_model": skipped,
-         "statements": sum(len(it["trace"]) for it in items), "clauses": list(clauses), "verdicts": dict(counts),
+        {"profile": profile, "programs": n_items, "distinct_programs": len(seen), "out_of_model": skipped,
+         "statements": n_statements, "clauses": list(clauses), "verdicts": dict(counts),
          "statement_kinds": dict(sorted(kinds.items()))})
-    if items:
-        out.add_sample({"kind": "validated_trace", "program": items[0]["prog"]}, limit=4)
+    if sample is not None:
+        out.add_sample({"kind": "validated_trace", "program": sample}, limit=4)
     if n and skipped > 0.05 * n:
         out.machinery(f"{skipped}/{n} programs left the exact fragment (>5%)")
     return counts
